@@ -78,7 +78,8 @@ def check_geometry(case, ctx):
     with package(name):
         cc._rebuild()
     for k, v in vals.items():
-        ctx.ok(getattr(cc, k) == v, name + '.idempotent', '%s changed on a second _rebuild: %r -> %r' % (k, v, getattr(cc, k)))
+        # (a given r1 is re-derived from the filled-in r2 on the second pass: equal up to an ulp, not bit for bit)
+        ctx.ok(abs(getattr(cc, k) - v) <= 1e-14 * sc, name + '.idempotent', '%s changed on a second _rebuild: %r -> %r' % (k, v, getattr(cc, k)))
     # size formula
     from compmech.conecyl import modelDB
     md = modelDB.db[case['model']]
